@@ -1,3 +1,3 @@
 (* Everything the extracted runner needs: generated tables and models only (no proofs),
    so the runner still builds, and can search for a counter-example, when a proof breaks. *)
-From Sam Require Export Gen.Tables Model.Slot Model.Bytes Model.Resp Model.Reader Model.Codec Model.Frame Model.Text Model.Dispatch Model.RedisFlags Model.Scan Model.Compress Model.Redirect Model.HostSet Model.Counter Model.ConfigStore Model.Cluster Model.RedisSem Model.Migrate Model.Heal Model.Stats Model.Backend Model.Discovery Model.Lifecycle Model.Relay.
+From Sam Require Export Gen.Tables Model.Slot Model.Bytes Model.Resp Model.Reader Model.Codec Model.Frame Model.Text Model.Dispatch Model.RedisFlags Model.Scan Model.Compress Model.Redirect Model.HostSet Model.Counter Model.ConfigStore Model.Cluster Model.RedisSem Model.Migrate Model.Gossip Model.Heal Model.Stats Model.Backend Model.Discovery Model.Lifecycle Model.Relay.
